@@ -1,5 +1,7 @@
 import Lean.Data.Json
 import AFModel.ParEval
+import AFModel.ParFair
+import AFModel.ParLife
 
 /-! Driver for C14: runs the pool state machines of `AFModel/ParEval.lean` on a schedule.
 
@@ -8,7 +10,15 @@ requests
   successive `map` calls on one pool → per batch: finished, yielded, raised, leftover, per-worker log,
   and what the pinned commit would have yielded (`legacy_*`, arrival order)
 * `{"p":"C14","q":"run_jobs","P":workers,"fuel":n,"js":[…],"sched":[±actor…],"count_twice":b,"poll_empty":b}`
-  (a negative schedule entry `-a` = actor `a` with a stale `empty()` answer) -/
+  (a negative schedule entry `-a` = actor `a` with a stale `empty()` answer)
+* `{"p":"C14","q":"fair","P":n,"js":[…],"sched":[actor…]}` one `map` call on a fresh pool along exactly the given
+  schedule (no continuation) → finished, number of complete fair rounds of the schedule, the round bound of
+  `map_terminates_under_every_fair_schedule`, the variant before and after
+* `{"p":"C14","q":"life","P":n,"fuel":n,"batches":[…as map…],"del_sched":[actor…],"rounds":n}` a whole pool
+  session: start, `map` calls, then `__del__` along exactly `del_sched` → per process alive / StopCommands /
+  results / jobs queued, StopCommands sent, `down`; and the same after `rounds` further fair rounds
+* `run_jobs` answers also carry the shutdown state: stop tokens on the shared queue and live workers when the
+  run ends, and after two further fair rounds -/
 
 open Lean (Json)
 open AF.ParEval
@@ -55,6 +65,14 @@ private def jsonOfMapSt (s : MapSt Nat) : Json :=
 private def evOfInt (i : Int) : Ev :=
   if i < 0 then { actor := i.natAbs, stale := true } else { actor := i.toNat }
 
+private def jsonOfDel (s : DelSt Nat) : Json :=
+  Json.mkObj [
+    ("workers", Json.arr (s.ws.map (fun l => Json.mkObj [
+      ("alive", Json.bool l.alive), ("stops", natJ l.stops),
+      ("results", natJ (l.w.resQ.length + l.w.hold.toList.length)), ("jobs", natJ l.w.jobQ.length)])).toArray),
+    ("sent", natJ s.sent), ("alive", natJ s.aliveCount), ("queued", natJ s.queued),
+    ("results", natJ s.results), ("down", Json.bool s.down)]
+
 def handleC14 (j : Json) : Except String Json := do
   let q ← (← j.getObjVal? "q").getStr?
   let P ← (← j.getObjVal? "P").getNat?
@@ -82,7 +100,37 @@ def handleC14 (j : Json) : Except String Json := do
       ("queued", natJ (jobsOf s.jobQ).length),
       ("in_flight", natJ (rpipes s.ws).length),
       ("work_left", natJ s.mu),
-      ("count", natJ s.count)])
+      ("count", natJ s.count),
+      ("stop_tokens", natJ (stopTokens s.jobQ)),
+      ("live_workers", natJ (liveWorkers s.ws)),
+      ("stop_tokens_after", natJ (stopTokens (s.run (rrEvents P ++ rrEvents P)).jobQ)),
+      ("live_workers_after", natJ (liveWorkers (s.run (rrEvents P ++ rrEvents P)).ws)),
+      ("queue_after", natJ (s.run (rrEvents P ++ rrEvents P)).jobQ.length)])
+  | "life" =>
+    let bs ← (← listOf j "batches").mapM fun b => do
+      let js ← (← listOf b "js").mapM resOfJson
+      let sched ← (← listOf b "sched").mapM (·.getNat?)
+      pure (js, sched)
+    let dels ← (← listOf j "del_sched").mapM (·.getNat?)
+    let rounds := ((j.getObjVal? "rounds") >>= (·.getNat?)).toOption.getD 0
+    let s := poolSession P fuel bs dels
+    pure (Json.mkObj [
+      ("at_end_of_schedule", jsonOfDel s),
+      ("fair_rounds", natJ (fairRounds P dels)),
+      ("after_rounds", jsonOfDel (s.rounds rounds))])
+  | "fair" =>
+    let js ← (← listOf j "js").mapM resOfJson
+    let sched ← (← listOf j "sched").mapM (·.getNat?)
+    let s := mapExact (newPool P) js sched
+    pure (Json.mkObj [
+      ("finished", Json.bool s.finished),
+      ("fair_rounds", natJ (fairRounds P sched)),
+      ("bound", natJ (mapRoundBound P js.length)),
+      ("phi_start", natJ (initMap (newPool P) js).phi),
+      ("phi_end", natJ s.phi),
+      ("yielded", Json.arr (s.output.yielded.map natJ).toArray),
+      ("raised", optNatJ s.output.raised),
+      ("leftover", natJ (leftover s.ws))])
   | s => throw s!"C14: unknown query {s}"
 
 end AF.Driver
